@@ -188,7 +188,7 @@ def t_truth(wb, rng):
     s = wb.sheets.get("survey")
     if not s:
         return None
-    cols = [i for i, c in enumerate(s["canon"]) if c in ("required", "read_only")]
+    cols = [i for i, c in enumerate(s["canon"]) if c in ("required", "read_only", "relevant")]
     cells = [(ri, ci) for ri, r in enumerate(s["rows"]) for ci in cols if r[ci] in TRUTHY or r[ci] in FALSY]
     if not cells:
         return None
